@@ -597,7 +597,10 @@ class TCPHiddenServiceEndpoint(object):
         # for ephemeral services, the key should exist and be unique.
         already = False
         if self.ephemeral:
-            already = self.hiddenservice is not None
+            # a service that was removed in the meantime (its
+            # .remove() takes it off this list) has to be created again
+            already = self.hiddenservice is not None and \
+                self.hiddenservice in self._config.EphemeralOnionServices
         else:
             hs_dirs = [hs.dir for hs in self._config.HiddenServices if hasattr(hs, 'dir')]
             already = os.path.abspath(self.hidden_service_dir) in hs_dirs
